@@ -1504,7 +1504,11 @@ where
                     // Done in order to prevent copying and sorting a large
                     // set of members just to not use them at all because
                     // they don't fit the remaining buffer
-                    self.estimate_feed_capacity(buf.remaining_mut()),
+                    // and the number of items is sent as a u16
+                    usize::min(
+                        self.estimate_feed_capacity(buf.remaining_mut()),
+                        u16::MAX.into(),
+                    ),
                     &mut self.choice_buf,
                     &mut self.rng,
                     |member| member != &dst,
